@@ -110,6 +110,7 @@ type scenario struct {
 	Parts      []part `json:"parts"`
 	Network    string `json:"network"`
 	RequireECH bool   `json:"require_ech"`
+	emptyECH   int
 	PublicName string `json:"public_name"`
 	Caller     string `json:"caller_config"` // nil | empty | list | sn | both | emptylist | emptylist+sn
 	Profile    string `json:"outcome_profile"`
@@ -139,6 +140,8 @@ type zoneGen struct {
 	nh   int
 	nech int
 	ech  map[string]string
+
+	emptyECH int // records with "ech=" of zero bytes
 }
 
 func (g *zoneGen) v4() netip.Addr {
@@ -231,6 +234,9 @@ func (g *zoneGen) services(owner string) {
 		h.NoDefaultALPN = len(h.ALPN) > 0 && g.rng.IntN(4) == 0
 		if echMode == 1 || (echMode >= 2 && g.rng.IntN(2) == 0) {
 			h.ECH = g.newECH(owner)
+		} else if g.rng.IntN(5) == 0 {
+			h.ECHEmpty = true // "ech=" with a value of zero bytes: well-formed SvcParam framing, no config list
+			g.emptyECH++
 		}
 		if g.rng.IntN(100) < 35 {
 			h.IPv4Hint = append(h.IPv4Hint, g.hint(false))
@@ -388,7 +394,7 @@ func genScenario(rng *mrand.Rand, i int) *scenario {
 		}
 		g.httpsAtOwner(sc, q, 0)
 	}
-	sc.zone, sc.zoneECH = g.z, g.ech
+	sc.zone, sc.zoneECH, sc.emptyECH = g.z, g.ech, g.emptyECH
 
 	// dialer and caller
 	sc.RequireECH = rng.IntN(2) == 0
@@ -722,7 +728,7 @@ func dumpZone(z *dohfake.Zone) []string {
 				out = append(out, fmt.Sprintf("%s CNAME %s", r.Owner, r.Target))
 			case dohfake.TypeHTTPS:
 				h := r.HTTPS
-				out = append(out, fmt.Sprintf("%s HTTPS prio=%d target=%q port=%d alpn=%v nda=%v v4hint=%v v6hint=%v ech=%s", r.Owner, h.Priority, h.Target, h.Port, h.ALPN, h.NoDefaultALPN, h.IPv4Hint, h.IPv6Hint, show(h.ECH)))
+				out = append(out, fmt.Sprintf("%s HTTPS prio=%d target=%q port=%d alpn=%v nda=%v v4hint=%v v6hint=%v ech=%s", r.Owner, h.Priority, h.Target, h.Port, h.ALPN, h.NoDefaultALPN, h.IPv4Hint, h.IPv6Hint, map[bool]string{false: show(h.ECH), true: "<present, zero bytes>"}[h.ECHEmpty]))
 			default:
 				out = append(out, fmt.Sprintf("%s ADDR %s", r.Owner, r.Addr))
 			}
@@ -917,6 +923,7 @@ func TestCheck(t *testing.T) {
 	r.Floor("invocations_with_caller_list", int64(n)/5)
 	r.Floor("invocations_without_ech", int64(n)/20)
 	r.Floor("targets_skipped_for_missing_ech", int64(n)/50)
+	r.Floor("zone_records_with_empty_ech_value", int64(n)/20)
 	r.Floor("caller_configs_compared", int64(n)/2)
 	r.Floor("dial_returned_conn", int64(n)/8)
 	r.Floor("dial_returned_error", int64(n)/8)
@@ -1009,7 +1016,8 @@ func runScenario(r *mon.Run, i int, sc *scenario, url string) {
 	if sc.RequireECH {
 		r.Count("scenarios_require_ech", 1)
 	}
-	if sc.callerList != nil {
+	r.Count("zone_records_with_empty_ech_value", int64(sc.emptyECH))
+	if len(sc.callerList) > 0 {
 		r.Count("scenarios_caller_list", 1)
 	}
 	if sc.callerSN != "" {
@@ -1086,7 +1094,7 @@ func runScenario(r *mon.Run, i int, sc *scenario, url string) {
 			return "nil"
 		case len(l) == 0:
 			return "empty"
-		case sc.callerList != nil && bytes.Equal(l, sc.callerList):
+		case len(sc.callerList) > 0 && bytes.Equal(l, sc.callerList):
 			return "caller"
 		}
 		if _, ok := retryLists[string(l)]; ok {
@@ -1192,6 +1200,11 @@ func runScenario(r *mon.Run, i int, sc *scenario, url string) {
 		if sc.RequireECH && e.ListNil {
 			viol("I1:no-ech-list-with-RequireECH", "invocation #%d (%s, server name %q) has no ECH config list although RequireECH is set", j, e.Addr, e.ServerName)
 		}
+		// a list of zero bytes holds no config: it is no ECH config list either (an "ech=" parameter without value in
+		// the zone, or an empty slice in the caller's config)
+		if sc.RequireECH && !e.ListNil && len(e.list) == 0 {
+			viol("I1:empty-ech-list-with-RequireECH", "invocation #%d (%s, server name %q) has an ECH config list of zero bytes although RequireECH is set", j, e.Addr, e.ServerName)
+		}
 		// I3 with a caller-supplied name
 		if sc.callerSN != "" && e.ServerName != sc.callerSN {
 			viol("I3:caller-servername-replaced:"+nameClass(e.ServerName), "invocation #%d has ServerName %q, the caller supplied %q", j, e.ServerName, sc.callerSN)
@@ -1209,7 +1222,7 @@ func runScenario(r *mon.Run, i int, sc *scenario, url string) {
 		leak := func() {
 			viol("leak:retry-list-used-for-next-target", "invocation #%d (%s) uses %s, the retry configs the server sent in answer to attempt #%d (%s)", j, e.Addr, e.List, retryLists[string(e.list)], entries[retryLists[string(e.list)]].Addr)
 		}
-		if sc.callerList != nil {
+		if len(sc.callerList) > 0 {
 			// I2
 			if e.ListNil || !bytes.Equal(e.list, sc.callerList) {
 				if got := classOfList(e.list, e.ListNil, e.Addr); got == "retry-list" {
@@ -1223,8 +1236,14 @@ func runScenario(r *mon.Run, i int, sc *scenario, url string) {
 		}
 		// listOK: does the list of this invocation fit expectation x; kind = what x asks for
 		listOK := func(x *expectation) (bool, string) {
-			if sc.callerList != nil {
+			if len(sc.callerList) > 0 {
 				return true, "caller" // judged above
+			}
+			if sc.callerList != nil && !e.ListNil && len(e.list) == 0 {
+				// the caller's config holds an empty non-nil slice: whether that is "a list supplied by the caller"
+				// the statement does not say; keeping it and treating it as no list are both accepted (I1 judges
+				// the RequireECH side)
+				return true, "caller-empty"
 			}
 			want := ""
 			for _, l := range x.lists {
@@ -1312,7 +1331,7 @@ func runScenario(r *mon.Run, i int, sc *scenario, url string) {
 	}
 
 	// targets that could not be attempted for lack of a list
-	if sc.RequireECH && sc.callerList == nil && sc.PublicName == "" {
+	if sc.RequireECH && len(sc.callerList) == 0 && sc.PublicName == "" {
 		for _, x := range all {
 			noList := true
 			for _, l := range x.lists {
